@@ -1,0 +1,41 @@
+//go:build verif
+// +build verif
+
+// Contracts for package sdp, read by /verif's govc (contract-based deductive verification).
+// This file contains comments only; it is compiled only under the build tag "verif" and adds no code.
+
+package sdp
+
+//@ import gosdp "github.com/pixelbender/go-sdp/sdp"
+//@ import "github.com/cnotch/ipchub/av/codec"
+
+// assumed: go-sdp returns a session whose media entries (and first formats) are non-nil; nothing is assumed about
+// how many formats a media line has (a hostile publisher or camera may send none)
+//@ extern func gosdp.ParseString(s string) (sess *gosdp.Session, err error)
+//@   modifies
+//@   fresh sess
+//@   ensures err == nil ==> sess != nil && forall(i, 0, len(sess.Media), sess.Media[i] != nil && (len(sess.Media[i].Format) > 0 ==> sess.Media[i].Format[0] != nil) && forall(j, 0, len(sess.Media[i].Bandwidth), sess.Media[i].Bandwidth[j] != nil))
+//@ func parseVideoMeta(m *gosdp.Format, video *codec.VideoMeta) ()
+//@   trusted
+//@   requires m != nil && video != nil
+//@   modifies *video
+//@ func parseAudioMeta(m *gosdp.Format, audio *codec.AudioMeta) ()
+//@   trusted
+//@   requires m != nil && audio != nil
+//@   modifies *audio
+
+// C07: malformed or hostile SDP (no media, media lines without a format, odd bandwidth lines) is contained
+//@ func ParseMetadata(rawsdp string, video *codec.VideoMeta, audio *codec.AudioMeta) (err error)
+//@   requires video != nil && audio != nil
+//@   modifies *video, *audio
+//@   local rangeindex int
+//@   local sdp *gosdp.Session
+//@   local media *gosdp.Media
+//@   loop 0: modifies *video, *audio
+//@   loop 0: invariant -1 <= rangeindex && sdp != nil && rangeindex <= len(sdp.Media)
+//@   loop 0: invariant forall(i, 0, len(sdp.Media), sdp.Media[i] != nil && (len(sdp.Media[i].Format) > 0 ==> sdp.Media[i].Format[0] != nil) && forall(j, 0, len(sdp.Media[i].Bandwidth), sdp.Media[i].Bandwidth[j] != nil))
+//@   loop 1: modifies video.DataRate
+//@   loop 1: invariant -1 <= rangeindex && media != nil && rangeindex <= len(media.Bandwidth) && forall(j, 0, len(media.Bandwidth), media.Bandwidth[j] != nil)
+//@   loop 2: modifies audio.DataRate
+//@   loop 2: invariant -1 <= rangeindex && media != nil && rangeindex <= len(media.Bandwidth) && forall(j, 0, len(media.Bandwidth), media.Bandwidth[j] != nil)
+//@   ensures true
